@@ -522,9 +522,10 @@ def _here(text: str) -> str:
 
 class K3Case:
     def __init__(self, name: str, actor: str = 'command', act=None, defs=(), setup_stdin: Optional[str] = None,
-                 cd: bool = False, runs=(), outcome: bool = False, interp: Pgm = INTERP, probes=()):
+                 cd: bool = False, runs=(), outcome: bool = False, interp: Pgm = INTERP, probes=(), files=()):
         self.name, self.actor, self.act, self.defs = name, actor, act, list(defs)
         self.setup_stdin, self.cd, self.runs, self.outcome, self.interp = setup_stdin, cd, list(runs), outcome, interp
+        self.files = list(files)  # [setup]: names of text sources;  `file f<i>.txt = TEXT-SOURCE`
         self.probes = list(probes)  # [assert]: (kind in {'exit-code', 'stdout', 'stderr'}, Pgm):  `kind -from PROGRAM MATCHER`
 
     def _probe_lines(self, probe) -> str:
@@ -558,6 +559,8 @@ class K3Case:
             lines += ['dir sub', 'cd sub']
         for name, p in self.defs:
             lines.append('def program %s = %s' % (name, p.text()))
+        for i, t in enumerate(self.files):
+            lines.append('file f%d.txt = %s' % (i, sp.T[t][0]))
         if self.setup_stdin is not None:
             lines.append('stdin = ' + sp.T[self.setup_stdin][0])
         lines += [self._run_line(r) for r in self.runs if r[0] == 'setup']
@@ -585,6 +588,12 @@ class K3Case:
             out = OUT0 if d is None else sp.transformed(d, OUT0)
             lines += ['stdout equals ' + _here(out), 'stderr equals ' + _here(ERR0)]
         lines += [self._probe_lines(p) for p in self.probes]
+        for i, t in enumerate(self.files):
+            value = sp.ev(sp.T[t][1], sp.Env(['', '', S2_K3, S3_K3]))
+            if value.endswith('\n'):
+                lines.append('contents f%d.txt : equals %s' % (i, _here(value)))
+            else:
+                lines.append('exists f%d.txt : type file' % i)
         lines.append('[cleanup]')
         lines += [self._run_line(r) for r in self.runs if r[0] == 'cleanup']
         return '\n'.join(lines) + '\n'
@@ -599,6 +608,9 @@ class K3Case:
                 if r[0] == phase:
                     out.extend(sp.procs_of(sp.denote(r[2], defs), 'run%d' % i, env, cwd=cwd))
 
+        for t in self.files:
+            if sp.T[t][2] is not None:
+                out.append(sp.gen_proc(sp.T[t][2], env, cwd))
         of_runs('setup')
         extra_stdin, extra_gens = [], []
         if self.setup_stdin is not None:
@@ -668,7 +680,9 @@ def _behaviour(roles: List[str], atc_child: L.Child, run_children=None):
         _n[0] += 1
         role = roles[i] if i < len(roles) else 'unexpected'
         if role == 'gen':
-            return L.Child(out=sp.GEN_OUT)
+            return L.Child(out=sp.GEN_OUT, err=sp.GEN_ERR)
+        if role == 'gen-ign':
+            return L.Child(out=sp.GEN_OUT, err=sp.GEN_ERR, code=3)  # -ignore-exit-code: the text is used all the same
         if role == 'atc':
             return atc_child
         if role == 'probe':
@@ -742,13 +756,20 @@ def _k3_cases(tier: str) -> List[K3Case]:
         defs=[('Q', Pgm('sys', 'q', ['sym'], stdin='string')), ('QT', Pgm('ref', 'Q', ['sym1'], trans='upper'))],
         probes=[('exit-code', Pgm('ref', 'Q', ['spaces'])), ('stdout', Pgm('ref', 'QT', ['plain2'], trans='replace')),
                 ('stderr', Pgm('sys', 'q2', ['sym', 'list'], stdin='here-doc'))])
+    # programs used as text sources: {-stdout-from, -stderr-from} x {exit code relevant, -ignore-exit-code} x
+    # {-stdin given directly, accumulated through a program symbol}: each generator must get its stdin
+    add('text-source/matrix-as-files', act=sys_(['sym']), files=list(sp.PROGRAM_MATRIX))
+    add('text-source/stderr-from-as-stdin', act=sys_(['plain'], stdin='string'), setup_stdin='pgm-stderr-symbol', cd=True)
     add('stdin/generator-with-stdin', act=sys_(['sym'], stdin='program-w-stdin'), setup_stdin='program')
     add('run/ref-all-phases', act=Pgm('ref', 'P1', ['plain']),
         defs=[('P1', Pgm('sys', 'base', ['sym'], stdin='string')), ('P2', Pgm('ref', 'P1', ['sym1'], stdin='program'))],
         runs=[(ph, 'run', Pgm('ref', 'P2', ['plain2']), False) for ph in PHASES])
     if tier == 'thorough':
         for t in sp.T:
-            add('stdin/pgm-' + t + '+setup-' + t, act=sys_(['sym'], stdin=t), setup_stdin=t)
+            if t in sp.NESTABLE_TEXT_SOURCES:
+                add('stdin/pgm-' + t + '+setup-' + t, act=sys_(['sym'], stdin=t), setup_stdin=t)
+            else:
+                add('text-source/file-' + t, act=sys_(['plain']), files=[t], cd=True)
             add('file-actor/stdin-' + t, actor='file', act=['sym'], setup_stdin=t)
         for a in sp.A:
             if a != 'rest':
